@@ -34,17 +34,22 @@ def run(ctx, chk):
                        'own mailbox (bounded timeout <= 5 s for the poller), the chrony query and the sysfs read only. N7: main '
                        'returns right after thread_manager::run. NOT decided: actual latencies.')
     chk.not_decided = ['wall-clock exit latency', 'blocking inside chrony_candm::blocking_query_uds (bounded by its own timeout)']
-    tm = [b for b in fb.bodies(common.DAEMON) if b.path.endswith('thread_manager::run')]
-    if not tm:
-        chk.missing('C15.N3', 'thread_manager::run')
+    from . import poller_model as _pm
+    _pm.init_names(fb)
+    tmb = common.thread_manager(fb)
+    ctx_ty = common.context_type(fb)
+    bcb = common.abort_broadcast(fb)
+    _CTX[0] = ctx_ty
+    if tmb is None or ctx_ty is None:
+        chk.missing('C15.N3', 'thread manager (daemon function spawning the workers) / per-thread context type with a notifying Drop')
         return
-    tmb = tm[0]
     chk.saw(tmb)
     ids = common_variant_names(fb, 'clock_bound_d::ChannelId')
     msgs = common_variant_names(fb, 'clock_bound_d::Message')
 
     # ------------------------------------------------------------ N1 Drop for Context
-    drops = [b for b in fb.bodies(common.DAEMON) if b.name == 'drop' and (b.impl_self or '').endswith('thread_manager::Context')]
+    drop_targets = []
+    drops = [b for b in fb.bodies(common.DAEMON) if b.name == 'drop' and b.impl_self == ctx_ty]
     if not drops:
         chk.missing('C15.N1', 'impl Drop for Context')
     else:
@@ -64,8 +69,7 @@ def run(ctx, chk):
             lookups = [ef for ef in p.effects if ef['kind'] == 'call' and ef['callee'].endswith('HashMap::<K, V, S, A>::get')]
             sends = [ef for ef in p.effects if ef['kind'] == 'call' and ef['callee'].endswith('Sender::<T>::send')]
             tgt = variant_of(eng, p.state, lookups[0]['args'][1]) if lookups else None
-            chk.ob('C15.N1', 'drop:addresses-main-thread', p.kind == 'return' and tgt == 'MainThread', p.where[2],
-                   'Drop for Context looks up the channel of %s' % tgt)
+            drop_targets.append((p.kind, tgt, p.where[2]))
             found = any(t[0] == 't' and t[1] == 'discr' and 'get#' in fmt(t) and ((op == '==' and v == 1)) for t, op, v, _ in p.conds)
             if found:
                 m = sends[0]['args'][1] if sends else None
@@ -73,17 +77,33 @@ def run(ctx, chk):
                 want = 'ThreadPanic' if pan else 'ThreadTerminate'
                 chk.ob('C15.N1', 'drop:notifies:%s' % want, kind == want, p.where[2],
                        'panicking=%s: sends %s (must send %s)' % (pan, kind, want))
-        chk.floor('C15.N1', 'paths of Drop for Context', n, 4)
+        chk.floor('C15.N1', 'paths of Drop for Context', n, 2)
 
     # ------------------------------------------------------------ N2/N3 manager
     def keep_opaque(x):
-        by_value_ctx = any(x.crate.tystr(x.locals[i]['ty']) == 'clock_bound_d::thread_manager::Context' for i in range(1, x.argc + 1))
-        return by_value_ctx or x.name in ('broadcast_abort', 'new_channel_web') or x.crate.name != common.DAEMON
+        by_value_ctx = any(x.crate.tystr(x.locals[i]['ty']) == ctx_ty for i in range(1, x.argc + 1))
+        # helpers with their own loops (the web constructor) and the broadcast are analysed on their own
+        return by_value_ctx or (bcb is not None and x.path == bcb.path) or bool(x.back_edges()) or x.crate.name != common.DAEMON
     eng = common.mk_engine(fb, no_inline=keep_opaque)
     paths = [p for p in eng.run(tmb) if p.kind != 'unreachable']
     chk.analysed['paths'] += len(paths)
     spawn_seen = {}
     web_ids = set()
+    main_ids = set()
+    for p in paths:
+        for ef in p.effects:
+            if ef['kind'] == 'call' and not ef['tracing'] and ef['callee'].split('::')[-1] in ('recv', 'recv_timeout', 'try_recv') and ef['site'][0] == tmb.path:
+                rv = ef['pointees'][0] if ef.get('pointees') and ef['pointees'][0] is not None else ef['args'][0]
+                mid = mailbox_id_of(eng, p, rv, ids.values()) or mailbox_id_of(eng, p, ef['args'][0], ids.values())
+                if mid:
+                    main_ids.add(mid)
+    MAIN = sorted(main_ids)[0] if len(main_ids) == 1 else None
+    chk.ob('C15.N3', 'manager:receives-on-one-mailbox', MAIN is not None, tmb.where(0),
+           'the manager receives the death notices on the mailbox of %s' % (sorted(main_ids) or 'NO identifiable id'))
+    _MAIN[0] = MAIN
+    for kind_, tgt_, where_ in drop_targets:
+        chk.ob('C15.N1', 'drop:addresses-main-thread', kind_ == 'return' and tgt_ is not None and tgt_ == MAIN, where_,
+               'Drop for Context looks up the channel of %s; the manager listens on %s' % (tgt_, MAIN))
     for p in paths:
         calls = [(n, ef) for n, ef in enumerate(p.effects) if ef['kind'] == 'call' and not ef['tracing']]
         for k, v in p.state.store.items():
@@ -94,7 +114,7 @@ def run(ctx, chk):
                 c = ef['args'][0]
                 if c[0] != 'agg' or not c[1].startswith('closure:'):
                     continue
-                ctxs = [f for f in c[3] if f[0] == 'agg' and f[1].endswith('thread_manager::Context')]
+                ctxs = [f for f in c[3] if f[0] == 'agg' and f[1] == ctx_ty]
                 skey = (c[1], fmt(ctxs[0][3][0]) if ctxs and ctxs[0][3] else '')
                 if skey in spawn_seen:
                     continue
@@ -115,7 +135,7 @@ def run(ctx, chk):
         chk.ob('C15.N2', 'web:sender-removed:%s' % ef['callee'].split('::')[-1], False, ef['site'][2],
                '%s removes senders from a dispatch box before the threads are spawned: a thread that lost the MainThread sender '
                'cannot report its death' % ef['callee'])
-    chk.ob('C15.N2', 'web:all-ids-registered', {'MainThread', 'ClockErrorBoundPoller', 'ShmWriter'} <= web_ids, tmb.where(0),
+    chk.ob('C15.N2', 'web:all-ids-registered', set(ids.values()) <= web_ids and len(web_ids) >= 3, tmb.where(0),
            'channel web is created for ids %s' % sorted(web_ids))
     workers = {}
     for (cname, _ck), (c, ctxs, ef, p) in spawn_seen.items():
@@ -131,17 +151,7 @@ def run(ctx, chk):
         cid = f.get('channel_id', ('x',))
         cid = cid[2] if cid[0] == 'agg' else None
         mbox = f.get('mbox')
-        mb_id = None
-        # the mailbox value is the result of a lookup keyed by a ChannelId (get_mailbox, or the
-        # HashMap::remove it wraps, possibly through a helper): find that key
-        for x in psi.walk(mbox) if mbox else []:
-            if x[0] == 't' and x[1] == 'call' and isinstance(x[2][1], int) and x[2][1] < len(p.effects):
-                ef0 = p.effects[x[2][1]]
-                for a, pv in zip(ef0.get('args', []), ef0.get('pointees', [])):
-                    if pv is None and a[0] == 'ref':
-                        pv = eng.load(p.state, a[1])
-                    if pv is not None and pv[0] == 'agg' and pv[1].endswith('ChannelId') and pv[2] in ids.values():
-                        mb_id = pv[2]
+        mb_id = mailbox_id_of(eng, p, mbox, ids.values())
         chk.ob('C15.N2', 'spawn:mailbox-matches-id:%s' % cid, cid is not None and mb_id == cid, where,
                'Context{channel_id: %s} holds the mailbox of %s' % (cid, mb_id))
         # the dispatch box a thread is given is the web's own box or a plain clone of it: the thread's death notice
@@ -161,7 +171,7 @@ def run(ctx, chk):
                     if e2['kind'] == 'call' and not e2['tracing'] and any(a == cx for a in e2['args']):
                         wk = e2['callee']
         wb = fb.body(wk) if wk else None
-        by_value = wb is not None and any(wb.crate.tystr(wb.locals[i]['ty']) == 'clock_bound_d::thread_manager::Context' for i in range(1, wb.argc + 1))
+        by_value = wb is not None and any(wb.crate.tystr(wb.locals[i]['ty']) == ctx_ty for i in range(1, wb.argc + 1))
         chk.ob('C15.N2', 'spawn:context-moved-to-worker:%s' % cid, by_value, where,
                'closure passes its Context by value to %s' % wk)
         if wb is not None:
@@ -169,14 +179,17 @@ def run(ctx, chk):
     chk.floor('C15.N2', 'spawned workers', len(workers), 2)
     # what each worker is: follow the Context to the loop that finally owns it
     loops = {}
+    kinds_seen = {}
     for cid, wb in workers.items():
         holder = final_holder(fb, wb)
         loops[cid] = holder
         chk.saw(holder)
         kind = 'poller' if common.reaches_call(fb, holder, is_chrony_query) else \
             'writer' if reaches_write(fb, holder) else 'unknown'
-        want = {'ClockErrorBoundPoller': 'poller', 'ShmWriter': 'writer'}.get(cid)
-        chk.ob('C15.N2', 'spawn:id-matches-worker:%s' % cid, kind == want, holder.where(0),
+        kinds_seen.setdefault(kind, []).append(cid)
+        if kind == 'writer':
+            WRITER_ID[0] = cid
+        chk.ob('C15.N2', 'spawn:id-matches-worker:%s' % cid, kind in ('poller', 'writer') and cid != MAIN and len(kinds_seen[kind]) == 1, holder.where(0),
                'thread %s runs %s (a %s loop)' % (cid, holder.path.split('::')[-1], kind))
         ok, why = context_dropped_on_all_exits(holder)
         chk.ob('C15.N2', 'worker:context-dropped-on-every-exit:%s' % cid, ok, holder.where(0), why)
@@ -187,7 +200,7 @@ def run(ctx, chk):
             if nm.endswith(('mem::forget', 'ManuallyDrop::<T>::new', 'Box::<T, A>::leak', 'Box::<T>::leak', 'Rc::<T>::new', 'Arc::<T>::new',
                             'Box::<T>::into_raw', 'mem::transmute')):
                 targs = [b.crate.types[t_]['s'] for t_ in (fn.get('targs') or [])]
-                if any('thread_manager::Context' in s for s in targs):
+                if any(ctx_ty in s for s in targs):
                     chk.ob('C15.N2', 'context:not-forgotten:%s' % b.path.split('::')[-1], False, b.where(bb),
                            '%s applied to a Context: its Drop notification would never run' % nm)
     # ---- N3 manager loop table
@@ -211,7 +224,11 @@ def run(ctx, chk):
                 cls = msgs.get(val, str(val)) if op == '==' else 'other'
         after = names[ri + 1:]
         left = p.kind == 'return' or 'into_iter' in after or 'join' in after
-        rows.setdefault(cls, set()).add(('broadcast' if 'broadcast_abort' in after else 'no-broadcast', 'leave' if left else 'stay',
+        after_full = [ef['callee'] for ef in calls[ri + 1:]]
+        did_bc = (bcb is not None and bcb.path in after_full) or (bcb is None and any(
+            ef['callee'].endswith(('Sender::<T>::send', 'DispatchBox::<K, M>::send')) and ef['args'][-1][0] == 'agg' and ef['args'][-1][2] == 'ThreadAbort'
+            for ef in calls[ri + 1:]))
+        rows.setdefault(cls, set()).add(('broadcast' if did_bc else 'no-broadcast', 'leave' if left else 'stay',
                                          'join' if 'join' in after or p.kind == 'return' else 'no-join'))
     for cls in ('ThreadTerminate', 'ThreadPanic', 'recv-error'):
         got = rows.get(cls)
@@ -222,9 +239,9 @@ def run(ctx, chk):
     chk.tables['manager'] = {str(k): sorted(v) for k, v in rows.items()}
 
     # ------------------------------------------------------------ N4 broadcast
-    bc = [b for b in fb.bodies(common.DAEMON) if b.name == 'broadcast_abort']
+    bc = [bcb] if bcb is not None else []
     if not bc:
-        chk.missing('C15.N4', 'broadcast_abort')
+        chk.missing('C15.N4', 'abort broadcast (a daemon function called by the manager that sends ThreadAbort to the other threads)')
     else:
         b = bc[0]
         chk.saw(b)
@@ -283,7 +300,7 @@ def run(ctx, chk):
                 elif v[0] == 't' and v[1] in ('ne', 'eq') and all(x[0] == 'agg' for x in v[2]):
                     r_ = v[2][0][2] != v[2][1][2]
                     res[vn] = r_ if v[1] == 'ne' else not r_
-            want = {vn: vn != 'MainThread' for vn in ids.values()}
+            want = {vn: vn != _MAIN[0] for vn in ids.values()}
             chk.ob('C15.N4', 'broadcast:filter-excludes-only-main', res == want, fbod.where(0) if fbod else b.where(0),
                    'filter keeps %s (must keep every id except MainThread)' % res)
         else:
@@ -320,7 +337,7 @@ def run(ctx, chk):
         n = 0
         for p in e4.run(mb):
             calls = [ef for ef in p.effects if ef['kind'] == 'call' and not ef['tracing']]
-            idx = [i for i, ef in enumerate(calls) if ef['callee'].endswith('thread_manager::run')]
+            idx = [i for i, ef in enumerate(calls) if ef['callee'] == tmb.path]
             if not idx:
                 continue
             n += 1
@@ -333,7 +350,7 @@ def run(ctx, chk):
 def explicit_loop_broadcast(fb, chk, b, ids):
     """broadcast written as a `for` loop over the dispatch box: every iteration either skips MainThread or
     sends ThreadAbort to the iterated id, and only iterator exhaustion leaves the loop"""
-    main_discr = [k for k, v in ids.items() if v == 'MainThread']
+    main_discr = [k for k, v in ids.items() if v == _MAIN[0]]
     main_discr = main_discr[0] if main_discr else None
     eng = common.mk_engine(fb)
     n_iter = 0
@@ -363,7 +380,7 @@ def explicit_loop_broadcast(fb, chk, b, ids):
             if n2 and n2[0] in ('eq', 'ne') and is_main is None:
                 sides = [x for x in (n2[1], n2[2]) if x[0] == 'agg' and x[1].endswith('ChannelId')]
                 other = [x for x in (n2[1], n2[2]) if not (x[0] == 'agg' and x[1].endswith('ChannelId'))]
-                if len(sides) == 1 and sides[0][2] == 'MainThread' and other and 'next#' in fmt(other[0]):
+                if len(sides) == 1 and sides[0][2] == _MAIN[0] and other and 'next#' in fmt(other[0]):
                     truth = (op == '!=' and set(v) == {0}) or (op == '==' and v == 1)
                     is_main = truth if n2[0] == 'eq' else not truth
         sends = [ef for ef in calls if ef['callee'].endswith('Sender::<T>::send')]
@@ -379,6 +396,20 @@ def explicit_loop_broadcast(fb, chk, b, ids):
             chk.ob('C15.N4', 'broadcast:filter-excludes-only-main', False, p.where[2],
                    'an iteration does not decide on `id == MainThread`: %s' % [psi.fmt_cond(c)[:80] for c in p.conds][:3])
     chk.floor('C15.N4', 'broadcast loop iterations analysed', n_iter, 2)
+
+
+def mailbox_id_of(eng, p, term, id_names):
+    """the ChannelId a mailbox value was looked up with (get_mailbox, or the HashMap::remove it wraps, possibly via a helper)"""
+    got = None
+    for x in psi.walk(term) if term else []:
+        if x[0] == 't' and x[1] == 'call' and isinstance(x[2][1], int) and x[2][1] < len(p.effects):
+            ef0 = p.effects[x[2][1]]
+            for a, pv in zip(ef0.get('args', []), ef0.get('pointees', [])):
+                if pv is None and a[0] == 'ref':
+                    pv = eng.load(p.state, a[1])
+                if pv is not None and pv[0] == 'agg' and pv[1].endswith('ChannelId') and pv[2] in id_names:
+                    got = pv[2]
+    return got
 
 
 def dispatch_box_is_plain_clone(eng, p, dbox, mbox):
@@ -433,8 +464,8 @@ def final_holder(fb, wb, depth=0):
         if nb is None or nb.argc < 1:
             continue
         for i, a in enumerate(t['args']):
-            if a.get('k') == 'move' and not a['p']['proj'] and wb.crate.tystr(wb.locals[a['p']['l']]['ty']) == 'clock_bound_d::thread_manager::Context' \
-                    and nb.crate.tystr(nb.locals[i + 1]['ty']) == 'clock_bound_d::thread_manager::Context':
+            if a.get('k') == 'move' and not a['p']['proj'] and wb.crate.tystr(wb.locals[a['p']['l']]['ty']) == common.context_type(fb) \
+                    and nb.crate.tystr(nb.locals[i + 1]['ty']) == common.context_type(fb):
                 return final_holder(fb, nb, depth + 1)
     return wb
 
@@ -454,11 +485,16 @@ def reaches_write(fb, b, seen=None):
     return False
 
 
+_CTX = [None]
+_MAIN = [None]
+WRITER_ID = [None]
+
+
 def context_dropped_on_all_exits(b):
     """the by-value Context parameter is dropped on every path to `return` and to `resume`"""
     ctx_local = None
     for i in range(1, b.argc + 1):
-        if b.crate.tystr(b.locals[i]['ty']) == 'clock_bound_d::thread_manager::Context':
+        if b.crate.tystr(b.locals[i]['ty']) == _CTX[0]:
             ctx_local = i
     if ctx_local is None:
         return False, 'no by-value Context parameter'
